@@ -117,3 +117,36 @@ def run_offline(name, formulas, maxt=3, maxn=3, vals=(-2, 1, 3), t0=0, workers=1
     if not os.environ.get("VERIF_KEEP"):
         shutil.rmtree(wd, ignore_errors=True)
     return res
+
+
+SCFG = """SPECIFICATION SSpec
+CONSTANTS
+ SFormulas <- FDef
+ K = 1
+ Configs = {}
+ Formulas = {}
+ Vals = {}
+ Gaps = {}
+ MaxLen = 1
+ Dev = {}
+ Mode = "online"
+INVARIANT PastifyClosed
+INVARIANT DiscreteTotal
+INVARIANT DenseTotal
+CHECK_DEADLOCK FALSE
+"""
+
+
+def run_support(name, formulas, workers=6, timeout=3600):
+    """SupportMC: the support guards of the outcome machine are consistent with the semantics and the operational models"""
+    wd = tlc.workdir(name)
+    mod = "MC_" + name
+    with open(os.path.join(wd, mod + ".tla"), "w") as f:
+        f.write("---- MODULE %s ----\nEXTENDS SupportMC\nFDef == %s\n====\n" % (mod, tlc.tla_set(formulas)))
+    with open(os.path.join(wd, mod + ".cfg"), "w") as f:
+        f.write(SCFG)
+    res = tlc.run(wd, mod, workers=workers, timeout=timeout, deadlock=True)
+    tlc.ok_or_machinery(res, name)
+    if not os.environ.get("VERIF_KEEP"):
+        shutil.rmtree(wd, ignore_errors=True)
+    return res
